@@ -44,8 +44,9 @@ def main():
     alarms = {p: lines[:8] for p, rc, lines in res if rc != 0}
     dst = os.path.join("/verif/refactors", name)
     os.makedirs(dst, exist_ok=True)
-    shutil.copy(patch, os.path.join(dst, "patch.diff"))
-    if os.path.exists(os.path.join(src, "notes.md")):
+    if os.path.abspath(src) != os.path.abspath(dst):
+        shutil.copy(patch, os.path.join(dst, "patch.diff"))
+    if os.path.abspath(src) != os.path.abspath(dst) and os.path.exists(os.path.join(src, "notes.md")):
         shutil.copy(os.path.join(src, "notes.md"), os.path.join(dst, "notes.md"))
     head = subprocess.check_output("git -C /repo rev-parse --short HEAD", shell=True, text=True).strip()
     meta_p = os.path.join(dst, "meta.json")
@@ -54,6 +55,8 @@ def main():
                  "suite_with_refactoring": "pass", "properties_checked": props,
                  "alarms_now": alarms})
     meta.setdefault("alarms_at_first_run", alarms)
+    if "residual_alarms" in meta:
+        meta["residual_alarms"] = {p: w for p, w in meta["residual_alarms"].items() if p in alarms}
     json.dump(meta, open(meta_p, "w"), indent=1, ensure_ascii=False)
     print(name, "SILENT" if not alarms else "ALARMS: " + ", ".join(sorted(alarms)))
     for p, lines in alarms.items():
